@@ -38,6 +38,8 @@ pub struct D3 {
     pub changes: Vec<(u32, u64, u32)>,
     pub children: Vec<ChildRec>,
     pub spawn_fails: usize,
+    /// (t, seq) of every failed spawn attempt
+    pub spawn_fail_at: Vec<(u64, u32)>,
     pub q: (u64, u32),
     pub main_end: Option<(u64, u32, bool, String)>,
     pub final_sent: Option<(u64, u32)>,
@@ -52,7 +54,7 @@ pub fn children_before_q(out: &RunOut) -> Vec<ChildRec> {
 
 pub fn digest3(out: &RunOut) -> D3 {
     let ed = e1::digest(out);
-    let mut d = D3 { batches: vec![], changes: vec![], children: ed.children, spawn_fails: ed.spawn_fails.len(), q: (u64::MAX, u32::MAX), main_end: None, final_sent: None };
+    let mut d = D3 { batches: vec![], changes: vec![], children: ed.children, spawn_fails: ed.spawn_fails.len(), spawn_fail_at: ed.spawn_fails.iter().map(|f| (f.0, f.1)).collect(), q: (u64::MAX, u32::MAX), main_end: None, final_sent: None };
     let mut after_q = false;
     for r in &out.hist {
         match &r.ev {
@@ -98,7 +100,11 @@ pub fn oracle_c05(scn: &E3Scn, d: &D3, out: &RunOut, stats: &mut Stats) -> Vec<V
     let kids: Vec<(usize, &ChildRec)> = pre_children.iter().enumerate().filter(|(_, c)| c.spawn_seq > 0).collect();
     let pre: Vec<(usize, &ChildRec)> = kids.iter().copied().filter(|(_, c)| c.spawn_seq < qseq).collect();
     // (2) start-up run
-    if !scn.postpone {
+    let first_spawn_seq = pre.first().map(|(_, c)| c.spawn_seq).unwrap_or(u32::MAX);
+    if !scn.postpone && d.spawn_fail_at.iter().any(|f| f.1 < first_spawn_seq && f.1 < qseq) {
+        // the start-up run was attempted and could not be spawned
+        stats.hit("probe:startup-spawn-failed");
+    } else if !scn.postpone {
         match pre.first() {
             // (every batch handled before the first start queues its own --delay-run)
             Some((_, c)) if c.spawn_t >= delay && c.spawn_t <= delay * d.batches.iter().filter(|b| b.1 < c.spawn_seq).count().max(1) as u64 => stats.hit("probe:startup-run"),
@@ -155,7 +161,8 @@ pub fn oracle_c05(scn: &E3Scn, d: &D3, out: &RunOut, stats: &mut Stats) -> Vec<V
     let transition_at = |t: u64| -> bool { kids.iter().any(|(_, c)| c.spawn_t == t || c.exit.map(|e| e.0 == t).unwrap_or(false) || c.reaped.map(|r| r.0 == t).unwrap_or(false)) };
     // (3) freshness
     if let Some(&(lid, lt, lseq)) = d.changes.last() {
-        let run_after = pre.iter().any(|(_, c)| c.spawn_seq > lseq) || d.spawn_fails > 0;
+        // (a spawn that fails is still the CLI starting the command: the attempt is what the change is owed)
+        let run_after = pre.iter().any(|(_, c)| c.spawn_seq > lseq) || d.spawn_fail_at.iter().any(|f| f.1 > lseq && f.1 < qseq);
         let lbatch = d.batches.iter().find(|b| b.1 > lseq && b.2.contains(&lid));
         match mode {
             "restart" => {
@@ -499,6 +506,9 @@ pub fn gen_cli(rng: &mut Rng) -> E3Scn {
         final_signal: *rng.pick(&[2, 15]),
         map_signals: vec![],
         wrap: None,
+        // the program cannot be spawned at some attempt (missing, not executable): the job stays idle, later changes
+        // must try again
+        spawn_fail: if rng.chance(1, 6) { vec![rng.below(3) as u32] } else { vec![] },
     }
 }
 
@@ -730,6 +740,7 @@ impl Check for C05 {
     }
     fn required_probes(&self, _tier: Tier) -> Vec<&'static str> {
         vec![
+            "probe:startup-spawn-failed",
             "probe:map-signal",
             "probe:mode-do-nothing",
             "probe:mode-queue",
